@@ -1,6 +1,8 @@
 import GoflowModel.Engine.Inspect
 import GoflowModel.Gen.Actions
 import GoflowModel.Driver.Util
+import GoflowModel.Engine.InspectRefs
+import GoflowModel.Gen.ContextDoc
 namespace GoflowModel.Driver.Inspect
 open GoflowModel.Inspect GoflowModel.Driver
 
@@ -36,6 +38,16 @@ def handle : List String → Option String
     let wex := sortDedup ((waitingExits f).map toString)
     let show_ := fun (l : List String) => if l.isEmpty then "_" else ",".intercalate l
     some s!"keys {show_ keys} waiting {show_ wex}"
+  | ["ctxref", path] => do
+    -- ctxref <hex,hex,…>  →  none | field:<hex key>;global:<hex key>;parentresult:<hex key>… sorted   (ExtractFromTemplate on one dotted chain)
+    let p ← decList path
+    let show1 := fun (r : InspectRefs.Ref) => match r with
+      | .field k => "field:" ++ Hex.enc k
+      | .global k => "global:" ++ Hex.enc k
+      | .parentResult k => "parentresult:" ++ Hex.enc k
+      | .none => "none"
+    let rs := ((InspectRefs.chainRefs Gen.ContextDoc.fieldRefPaths String.toLower (p.map String.ofList)).map show1).toArray.qsort (· < ·)
+    some (if rs.isEmpty then "none" else ";".intercalate rs.toList)
   | _ => none
 
 end GoflowModel.Driver.Inspect
